@@ -213,7 +213,8 @@ def work_generated(seed, n):
                                  "time_period": st.sampled_from([None, "2020Q1", "2021M03", "2020-W53", "2019", "2020D366", "2020S2"]), "At_1": strv})
     rows_st = st.lists(row, min_size=0, max_size=6, unique_by=lambda r: (r["Id_1"], r["Id_2"]))
     scripts = st.sampled_from([
-        "R_1 <- DS_1;", "R_1 <- DS_1 [calc x := Me_1 * 3, s := Me_3 || \"|\"]; sc_1 <- 1 + 1; sc_2 := \"a,b\"; sc_3 <- null;",
+        "R_1 <- DS_1;", "R.v1 <- DS_1; R.v2 <- DS_1 [filter Me_2 > 0]; sc.a <- 1;", "R_1 <- DS_1 [keep Me_1]; sc_z <- 0; sc_f <- false; sc_0 <- 0.0; sc_e <- \"\"; sc_m <- 1 - 1;",
+        "R_1 <- DS_1 [calc x := Me_1 * 3, s := Me_3 || \"|\"]; sc_1 <- 1 + 1; sc_2 := \"a,b\"; sc_3 <- null;",
         "R_1 := DS_1 [filter Me_2 > 0]; R_2 <- R_1 [keep Me_3, 'date'];", "R_1 <- DS_1 [filter Id_1 < 0];", "R_1 <- count(DS_1 group by Id_2); sc_1 <- max(DS_1#Me_2);",
         "R_1 <- DS_1 [keep 'time_period', 'date', Me_4]; sc_b <- true; sc_n <- 0.1 + 0.2;", "R_1 <- DS_1 [calc identifier Id_3 := Me_3] ;", "R_1 <- sum(DS_1#Me_1); R_2 := DS_1#Me_3;"])
 
